@@ -482,7 +482,7 @@ prop('C20',
      rule=('generated: N in 2..20, a family of N functions (position-tagged trace appenders on strings, '
            'affine maps mod 1000003, arbitrary lookup tables on [0,7)), 1..3 arguments applied in turn to the one '
            'composed function; oracle: left-to-right fold of the same functions + per-function call counters; '
-           'two more families: functions over `any` returning the nil interface for some inputs, and a stage that re-enters the composed function while the outer call is in flight; a third of the scenarios call with the same argument twice in a row; a separate generated part builds two compositions and calls them alternately; a sixth family has one stage panic (error, string, int, struct or pointer value): the composition panics with the very same value, earlier stages applied once, later ones not at all; a separate part (race detector on) executes 2..8 independent scenarios in as many goroutines at once, each repeated 20-30 times: instances of their own share nothing; a mixed family composes stages of different types (int->int, int->string, string->int, string->string) in three fixed type patterns per N (generated table mixed_gen.go), each stage depending on its position; a composition that never returns (self-deadlock) is reported by the deadlock detector of the Go runtime because these parts run without a timer inside the test binary; non-trivial = all N functions pairwise different; distinct = different canonical scenario'),
+           'two more families: functions over `any` returning the nil interface for some inputs, and a stage that re-enters the composed function while the outer call is in flight; a third of the scenarios call with the same argument twice in a row; a separate generated part builds two compositions and calls them alternately; a sixth family has one stage panic (error, string, int, struct or pointer value): the composition panics with the very same value, earlier stages applied once, later ones not at all; a separate part (race detector on) executes 2..8 independent scenarios in as many goroutines at once, each repeated 20-30 times: instances of their own share nothing; a mixed family composes stages of different types (int->int, int->string, string->int, string->string) in three fixed type patterns per N (generated table mixed_gen.go), each stage depending on its position; a composition that never returns (self-deadlock) is reported by the deadlock detector of the Go runtime because these parts run without a timer inside the test binary; two more families, executed for every N by the deterministic part only: a stage that recurses through the composed function 1300..2100 levels deep, and 1100 evaluations of one composed function in flight at once (parked in their first stage) while one more call is made; non-trivial = all N functions pairwise different; distinct = different canonical scenario'),
      assumptions=['internal/pipe is exercised as a staged copy of the working-tree source (package pure, imported as verif.stage/purepipe)',
                   'type parameters are instantiated at int, string and any, homogeneously and in three mixed int/string patterns'],
      parts=[
